@@ -744,7 +744,7 @@ class Flow:
                 dpath = strip_proj(x["pl"]["p"])
                 if path[:len(dpath)] == dpath:
                     res |= self._rvalue(body, x["rv"], path[len(dpath):], mode, bb, si)
-                elif dpath[:len(path)] == path and mode == "taint":
+                elif dpath[:len(path)] == path and mode.startswith("taint"):
                     res |= self._rvalue(body, x["rv"], (), mode, bb, si)
             elif kind == "call":
                 dpath = strip_proj(x["dest"]["p"])
@@ -752,7 +752,7 @@ class Flow:
                     res |= self._call(body, bb, x, path[len(dpath):], mode)
             elif kind == "yield":
                 res.add(Src(("ctx",)))
-        if mode == "taint":
+        if mode.startswith("taint"):
             for kind, bb, si, x in get_defs(body).through.get(local, []):
                 res |= self._rvalue(body, x["rv"], (), mode, bb, si)
         if path and path[0] == "$item":
@@ -781,7 +781,7 @@ class Flow:
                 tag = TAGGED_VARIANTS[rv["variant"]]
                 if rest and rest[0] == tag:
                     return self._q_operand(body, ops[0], rest[1:], mode)
-                if mode == "taint" and not rest:
+                if mode.startswith("taint") and not rest:
                     return self._q_operand(body, ops[0], (), mode)
                 return set()
             if ak == "adt" and rv["def"] in WRAPPER_ADTS or (ak == "adt" and rv.get("variant") in WRAPPER_VARIANTS and len(ops) == 1):
@@ -814,20 +814,20 @@ class Flow:
                             out.add(x)
                     return out
             out = {Src(("agg", body.id, bb, si, rv.get("def") or ak))}
-            if mode == "taint" or rest:
+            if mode.startswith("taint") or rest:
                 for o in ops:
                     out |= self._q_operand(body, o, rest if not rest or not isinstance(rest[0], int) else rest[1:], mode)
             return out
         if k in ("binop", "unop"):
             out = set()
             out.add(Src(("op", body.id, bb, si, rv["op"])))
-            if mode == "taint":
+            if mode.startswith("taint"):
                 out |= self._q_operand(body, rv["a"], (), mode)
                 if k == "binop":
                     out |= self._q_operand(body, rv["b"], (), mode)
             return out
         if k == "discr":
-            if mode == "taint":
+            if mode.startswith("taint"):
                 pl = rv["pl"]
                 return self._q(body, pl["l"], strip_proj(pl["p"]), mode)
             return {Src(("op", body.id, bb, si, "discr"))}
@@ -884,12 +884,13 @@ class Flow:
             target = path
         if target is not None:
             cb = self.fb.bodies[target]
-            if (mode == "prov" or mode.startswith("prov@")) and cb.kind == "fn" and self.context_sensitive_calls and \
-                    target not in self.merge_call_targets and mode != "prov@" + target:
+            base_mode = mode.split("@", 1)[0]
+            if cb.kind == "fn" and self.context_sensitive_calls and \
+                    target not in self.merge_call_targets and mode != base_mode + "@" + target:
                 # instantiate the callee's summary at THIS call site: what its result derives from, with the callee's own
                 # parameters replaced by the arguments given here (a small helper called with the ready-sender at one site
                 # and the done-sender at another must not merge the two)
-                out = self.instantiate_summary(body, t, target, self._q(cb, 0, rest, "prov@" + target), mode)
+                out = self.instantiate_summary(body, t, target, self._q(cb, 0, rest, base_mode + "@" + target), mode)
             else:
                 out = self._q(cb, 0, rest, mode)
             if target in self.alloc_wrappers:
@@ -902,7 +903,7 @@ class Flow:
             # produces only failure values: Err(From::from(e))
             if rest and rest[0] == "E":
                 return self._q_operand(body, args[0], rest, mode)
-            if mode == "taint" and not rest:
+            if mode.startswith("taint") and not rest:
                 return self._q_operand(body, args[0], ("E",), mode)
             return set()
         if path == "std::clone::Clone::clone" and (c.get("self_ty") or {}).get("s", "").startswith(("std::vec::Vec<", "[")):
@@ -920,7 +921,7 @@ class Flow:
             if i is None:
                 return set()
             out = self._q_operand(body, args[i], rest, mode)
-            if path in ELEMENT_OF and mode == "taint" and len(args) > 1:
+            if path in ELEMENT_OF and mode.startswith("taint") and len(args) > 1:
                 out = set(out) | self._q_operand(body, args[1], (), mode)
             return out
         if path in OUTPUT_OF:
@@ -943,7 +944,7 @@ class Flow:
         if path in ADAPTORS:
             return self._adaptor_result(body, bb, t, ADAPTORS[path], rest, mode)
         out = {Src(("alloc", body.id, bb, tuple(rest), path))}
-        if mode == "taint":
+        if mode.startswith("taint"):
             for a in args:
                 out |= self._q_operand(body, a, (), mode)
         return out
@@ -1034,7 +1035,7 @@ class Flow:
             out = set(self._q(cb, 0, tuple(rest), mode))
             if not rest:
                 out |= self._q_operand(body, args[ea], ("E",), mode)
-            if mode == "taint":
+            if mode.startswith("taint"):
                 out |= self._q_operand(body, args[ea], tuple(rest), mode)
             return out
         matched = False
